@@ -165,6 +165,29 @@ func c18Ops() []c18op {
 			t.Reshape(3, 2)
 			return dig(tensor.Sum(t, 1))
 		}},
+		// operations with options on PRIVATE tensors: the parsed option record is pooled; each goroutine must see its own
+		// options only. The results include the private operands and destinations as they are afterwards
+		{"private:AddReuseReshaped", func(s *c18shared) string {
+			a, b := priv(), priv()
+			r := tensor.New(tensor.WithShape(6), tensor.WithBacking([]float64{0, 0, 0, 0, 0, 0}))
+			return dig(tensor.Add(a, b, tensor.WithReuse(r))) + dig(a, nil) + dig(b, nil) + dig(r, nil)
+		}},
+		{"private:AddSafe", func(s *c18shared) string {
+			a, b := priv(), priv()
+			return dig(tensor.Add(a, b)) + dig(a, nil) + dig(b, nil)
+		}},
+		{"private:AddUnsafe", func(s *c18shared) string {
+			a, b := priv(), priv()
+			return dig(tensor.Add(a, b, tensor.UseUnsafe())) + dig(a, nil) + dig(b, nil)
+		}},
+		{"private:AddIncr", func(s *c18shared) string {
+			a, b, c := priv(), priv(), priv()
+			return dig(tensor.Add(a, b, tensor.WithIncr(c))) + dig(a, nil) + dig(b, nil) + dig(c, nil)
+		}},
+		{"private:LtSame", func(s *c18shared) string {
+			a, b := priv(), priv()
+			return dig(tensor.Lt(a, b, tensor.AsSameType())) + dig(a, nil) + dig(b, nil)
+		}},
 		{"UsePool-toggle", func(s *c18shared) string {
 			tensor.DontUsePool()
 			t := tensor.New(tensor.WithShape(2), tensor.WithBacking([]float64{1, 2}))
@@ -227,6 +250,22 @@ func runC18(r *core.Run) {
 	for _, i := range hot {
 		for _, j := range hot {
 			progs = append(progs, prog{[][]int{{i, j}, {j}}, false})
+		}
+	}
+	// option operations: two in a row against a third - a pooled record handed back early (or twice) by the first only
+	// shows when the second overlaps another goroutine's operation with different options
+	var optOps []int
+	for i, op := range ops {
+		switch op.name {
+		case "private:AddReuseReshaped", "private:AddSafe", "private:AddUnsafe", "private:AddIncr", "private:LtSame":
+			optOps = append(optOps, i)
+		}
+	}
+	for _, i := range optOps {
+		for _, j := range optOps {
+			for _, k := range optOps {
+				progs = append(progs, prog{[][]int{{i, j}, {k}}, false})
+			}
 		}
 	}
 	if !quick {
